@@ -73,6 +73,19 @@ def get_frame(frame):
         raise UnknownFrameError(frame)
 
 
+def _unpickle_frame(name, cls, state, registered):
+    """Frames are registered singletons compared by identity, and their centres and
+    orientations are nodes of the conversion graphs: a frame that was the registered
+    one comes back as the registered one (a private copy of the graphs would neither
+    pass for the original nor know the frames registered later).  Otherwise, or when
+    this process has no such frame (a station created elsewhere), it is rebuilt."""
+    frame = dynamic.get(name)
+    if not registered or frame is None or type(frame) is not cls:
+        frame = cls.__new__(cls)
+        frame.__dict__.update(state)
+    return frame
+
+
 class Frame:
     """Frame base class"""
 
@@ -97,6 +110,14 @@ class Frame:
 
     def __str__(self):  # pragma: no cover
         return self.name
+
+    def __reduce__(self):
+        return _unpickle_frame, (
+            self.name,
+            self.__class__,
+            self.__dict__,
+            dynamic.get(self.name) is self,
+        )
 
     def __repr__(self):  # pragma: no cover
         return f"<{self.__class__.__name__} '{self.name}' at {hex(id(self))}>"
